@@ -30,6 +30,7 @@ COMPUTE = [
 ]
 BLOCKS = [
     "amp.temp_params",
+    "amp.temp_params_list",
     "vm.temp_params",
     "amp.mask_params",
     "vm.mask_params",
@@ -74,11 +75,12 @@ def plan(tier, seed):
         enum_budget = 0  # all sites
         traced = 160
     i = 0
+    kinds = [None, None, "C4s", None, "C4", None, "V3", None, "C4s", "H3"]  # every card family gets its share
     for k in range(n_hist):
-        jobs.append({"mode": "seed", "kind": "history", "seed": seed * 1000003 + i, "faults": 0})
+        jobs.append({"mode": "seed", "kind": "history", "seed": seed * 1000003 + i, "faults": 0, "card_kind": kinds[k % len(kinds)]})
         i += 1
     for k in range(n_fault):
-        jobs.append({"mode": "seed", "kind": "history", "seed": seed * 1000003 + i, "faults": 1 if k % 4 else 2})
+        jobs.append({"mode": "seed", "kind": "history", "seed": seed * 1000003 + i, "faults": 1 if k % 4 else 2, "card_kind": kinds[k % len(kinds)]})
         i += 1
     for k in range(traced):
         jobs.append({"mode": "seed", "kind": "traced", "seed": seed * 1000003 + i, "faults": k % 2, "timeout": 240})
@@ -157,7 +159,7 @@ def gen_op(rs, depth, allow_block=True, enabled=None):
 
 def op_args(k, rs):
     a = {}
-    if k in ("amp.temp_params", "vm.temp_params", "amp.mask_params", "vm.mask_params", "config.mask_params", "set_params", "fit_fractions_old", "fit_fractions_new", "config_cal_fitfractions"):
+    if k in ("amp.temp_params", "amp.temp_params_list", "vm.temp_params", "amp.mask_params", "vm.mask_params", "config.mask_params", "set_params", "fit_fractions_old", "fit_fractions_new", "config_cal_fitfractions"):
         n = rs.randint(1, 3)
         a["p"] = [[rs.randrange(1000), round(rs.uniform(-2, 2), 4)] for _ in range(n)]
         if k.startswith("fit_fractions") or k.startswith("config_cal") and rs.chance(0.3):
@@ -205,10 +207,13 @@ def generate(job):
         card = cards.make_card(rm, "S3", n_res=2)
         strategy = rk.choice(["tf_function", "no_id_cached"])
     else:
-        card = cards.make_card(rm)
+        card = cards.make_card(rm, job.get("card_kind"))
         strategy = rk.weighted([("default", 6), ("cached_amp", 1), ("base_factor", 1)])
     # swarm: a per-run random subset of operation kinds
     enabled = set(rk.sample(COMPUTE, rk.randint(2, len(COMPUTE)))) | set(rk.sample(BLOCKS, rk.randint(2, len(BLOCKS))))
+    if job.get("card_kind") in ("C4s", "C4"):
+        # cards whose chains share a decay / a resonance: the flag- and selection-based overrides matter most
+        enabled |= {"temp_total_gls_one", "amp.temp_used_res", "cal_fitfractions"}
     nops = rk.randint(3, 7 if kind == "history" else 5)
     ops = []
     for _ in range(nops):
@@ -435,6 +440,13 @@ class Session:
         p = op.get("p") or [[0, 0.5]]
         if k == "amp.temp_params":
             return self.amp.temp_params(self._params(p))
+        if k == "amp.temp_params_list":
+            # the temporary point given as the list of all free values (set_params accepts either form)
+            vals = [float(v) for v in self.vm.get_all_val()]
+            for idx, val in p:
+                if vals:
+                    vals[idx % len(vals)] = float(val)
+            return self.amp.temp_params(vals)
         if k == "vm.temp_params":
             return self.vm.temp_params(self._params(p))
         if k == "amp.mask_params":
